@@ -262,6 +262,10 @@ def parse_args(buf: bytes, pos: int):
                     raise ParseIssue("CR/LF/NUL inside quoted string")
                 out += d
                 j += 1
+            # RFC 5804: quoted = DQUOTE *1024QUOTED-CHAR DQUOTE.  Read in the way most
+            # favourable to the sender: at most 1024 characters after unescaping
+            if len(out) > 1024 and len(bytes(out).decode("utf-8", "replace")) > 1024:
+                raise ParseIssue("quoted string longer than 1024 characters")
             args.append(("str", bytes(out), "quoted"))
             pos = j + 1
             continue
